@@ -5,7 +5,10 @@ Abstract values flowed forward through the CFG of one wrapper body:
    ('const', v)      an integer constant
    ('arr', (v0..))   a local array aggregate of abstract values
    ('mutref', path)  / ('ref', path)  a reference to a self field path
+   ('ext', i)        (inside an inlined callee) the i-th by-value argument leaf of the caller
    TOP
+Calls to loop-free bodies of the crate that receive exactly one self-derived reference are analysed in place (depth <= 3)
+and their stores / return value are mapped back; every other call clobbers what the callee may write (effect summary).
 Locations: locals, and field paths of *self (parameter 1).
 At every Return each self field that the body stores to must hold ('entry', same path).
 At designated calls the tracked fields must hold the constants of a mode table."""
@@ -41,7 +44,10 @@ def join_state(s1, s2):
 
 
 class SR:
-    def __init__(self, body, facts, effects, self_local=1):
+    def __init__(self, body, facts, effects, self_local=1, depth=0, init=None):
+        self.depth = depth
+        self.init = init or {}
+        self.inlined = []         # callee paths analysed in place
         self.body = body
         self.facts = facts
         self.eff = effects
@@ -195,6 +201,8 @@ class SR:
         if info is not None:
             callee = self.facts.bodies.get(info.get('res') or info.get('fn'))
         self.at_call.append((bb, info['fn'] if info else None, dict(st)))
+        if callee is not None and self.try_inline(st, t, callee):
+            return
         for ai, a in enumerate(t['args']):
             v = self.operand(st, a)
             if v[0] == 'mutref':
@@ -226,10 +234,76 @@ class SR:
                                             st[kk] = TOP
         self.write_place(st, t['dest'], TOP)
 
+    def try_inline(self, st, t, callee):
+        """analyse a small loop-free callee in place; returns False when the call must be handled conservatively"""
+        if self.depth >= 3 or callee.natural_loops() or len(callee.blocks) > 60:
+            return False
+        vals = [self.operand(st, a) for a in t['args']]
+        refs = [(i, v) for i, v in enumerate(vals) if v[0] in ('mutref', 'ref')]
+        if len(refs) != 1:
+            return False
+        for a, v in zip(t['args'], vals):
+            if v == TOP:
+                pl = a.get('c') or a.get('m')
+                if pl is not None:
+                    ty = pl.get('ty') or self.body.locals[pl['l']]['ty']
+                    if ty.startswith('&mut') or '{closure' in ty:
+                        return False
+        k, (_kind, P) = refs[0]
+        ext = []
+
+        def to_ext(v):
+            if v[0] == 'const' or v == TOP:
+                return v
+            if v[0] == 'arr':
+                return ('arr', tuple(to_ext(x) for x in v[1]))
+            ext.append(v)
+            return ('ext', len(ext) - 1)
+
+        init = {}
+        for i, v in enumerate(vals):
+            if i != k:
+                init[('L', i + 1)] = to_ext(v)
+        sub = SR(callee, self.facts, self.eff, self_local=k + 1, depth=self.depth + 1, init=init).run()
+        if sub.lost or not sub.at_return:
+            return False
+        rs = None
+        for _bb, s2 in sub.at_return:
+            rs = join_state(rs, s2)
+        snapshot = dict(st)
+
+        def back(v):
+            if v[0] == 'ext':
+                return ext[v[1]]
+            if v[0] == 'entry':
+                return self.read_field(snapshot, tuple(P) + tuple(v[1]))
+            if v[0] == 'arr':
+                return ('arr', tuple(back(x) for x in v[1]))
+            if v[0] in ('mutref', 'ref'):
+                return (v[0], tuple(P) + tuple(v[1]))
+            return v
+
+        writes = []
+        for key, v in rs.items():
+            if key[0] == 'F':
+                writes.append((tuple(P) + tuple(key[1]), back(v), key[1] in sub.stored))
+        ret = back(rs.get(('L', 0), TOP))
+        for path, v, direct in sorted(writes, key=lambda w: (len(w[0]), w[0])):
+            if direct:
+                self.stored.add(path)
+            for kk in list(st):
+                if kk[0] == 'F' and kk[1] != path and path_related(kk[1], path):
+                    st[kk] = TOP
+            st[('F', path)] = v
+        self.write_place(st, t['dest'], ret)
+        self.inlined.append(callee.path)
+        self.inlined.extend(sub.inlined)
+        return True
+
     def run(self):
         body = self.body
         self.lost = False
-        inst = {0: {}}
+        inst = {0: dict(self.init)}
         work = [0]
         iters = 0
         while work:
